@@ -506,6 +506,72 @@ def NamedConsistent (p : Prog) : Bool := p.nodes.all namedOK
     compiled code only string constants and string defaults can fail this: octal escapes) -/
 def ValidUtf8Consts (p : Prog) : Bool := (stateFromCode p).allStr validStr
 
+/-! ## names, `isNamed` and the call frame
+
+`isNamed` is NOT serialised: `codeFromState` recomputes it from the name.  Two things therefore
+have to be said about names.  (1) What `compile` guarantees about them (`CompileNames`): the
+root code (compiler.New) is called `__main__` and is not a named function; every other code
+object is created by `Code.newChild(name, …)` with `isNamed := name != ""`, where `name` is
+the function's own name (`compileFunc`: the same string goes into the `Function` constant) —
+so in compiled code a code object carries a name exactly when it is a named function, and
+nothing writes `name`/`isNamed` afterwards (tie `codeNameWrites_tie`).  Like `WF` this is an
+obligation evaluated on every real compiled tree, not proved of compiler.go.  (2) What the VM
+does with `IsNamed()` (vm.callFunction / frame.ActivateFunction): the frame of a call gets
+exactly `LocalsCount()` local slots (the size of the code's symbol table) and the VM writes the
+arguments into the first slots and then, if the code is named, the function object itself into
+slot `len(params)` — the slot `compileFunc` reserved for the function's own name.  A code object
+that comes back from a reload as named without having that slot is written past its frame
+(`index out of range [n] with length n`). -/
+
+/-- compile's naming discipline for one code object -/
+def nameOK (n : Node) : Bool :=
+  if n.parent.isNone then n.name == mainName && !n.isNamed     -- compiler.New: the root
+  else n.isNamed == (n.name != [])                               -- Code.newChild: isNamed := name != ""
+
+/-- compileFunc: the code object of a function carries the function's own name -/
+def fnNameOK (ns : List Node) : Const → Bool
+  | .basic _ => true
+  | .fn f code =>
+    match code with
+    | none => true
+    | some j => match ns[j]? with
+      | some m => m.name == f.name
+      | none => true
+
+/-- What `compile` guarantees about names (evaluated on every real compiled tree). -/
+def CompileNames (p : Prog) : Bool :=
+  p.nodes.all nameOK && p.nodes.all fun n => n.consts.all (fnNameOK p.nodes)
+
+/-- a named function whose name is `__main__` -/
+def mainFn (n : Node) : Bool := n.isNamed && n.name == mainName
+
+/-- the exact guard of finding C17-func-named-main on compiled code -/
+def HasMainFn (p : Prog) : Bool := p.nodes.any mainFn
+
+/-- a code object that carries a name without being a named function (a label) and is not
+    called `__main__`: `codeFromState` turns it into a named function -/
+def labelled (n : Node) : Bool := !n.isNamed && n.name != [] && n.name != mainName
+
+/-- vm.callFunction with every parameter bound: the parameters, then the function itself if
+    the code is named -/
+def initialLocals (f : FuncDef) (isNamed : Bool) : Nat :=
+  f.params.length + (if isNamed then 1 else 0)
+
+/-- frame.ActivateFunction stays inside the frame's locals for a call of this constant -/
+def frameFits (p : Prog) : Const → Bool
+  | .basic _ => true
+  | .fn f code =>
+    match code with
+    | none => true
+    | some j => match p.nodes[j]? with
+      | none => true
+      | some m => match findTable p.table m.tableID with
+        | none => true
+        | some t => decide (initialLocals f m.isNamed ≤ t.symbols.length)
+
+/-- every function of the program can be called without writing past its frame -/
+def FramesFit (p : Prog) : Bool := p.nodes.all fun n => n.consts.all (frameFits p)
+
 /-! ## Spec -/
 
 mutual
